@@ -95,8 +95,9 @@ FLOORS = {'nontrivial': (0.15, _S), 'pre:locked': (0.1, _S), 'pre:singleton-cach
           'clear:constants-kept': (0.3, _S), 'clear:constants-dropped': (0.3, _S),
           'survivors-kept>=1': (0.1, _S), 'obs:final-operative-readable': (0.6, _S),
           'clear:inside-0-scopes': (0.3, _S), 'clear:inside-1-scopes': (0.1, _S),
-          'clear:inside-2-scopes': (0.1, _S), 'clear:call-pos': (0.2, _S), 'clear:call-kw': (0.2, _S),
-          'clear:call-default': (0.2, _S), 'hist:const-gin-namespace': (0.05, _S), 'hist:const-value-is-REQUIRED-sentinel': (0.03, _S),
+          'clear:inside-2-scopes': (0.1, _S), 'clear:call-pos': (0.12, _S), 'clear:call-kw': (0.12, _S),
+          'clear:call-default': (0.12, _S), 'hist:const-gin-namespace': (0.05, _S),
+          'hist:const-value-is-REQUIRED-sentinel': (0.03, _S),
           'hist:flaky-in-operative-record-then-broken': (0.02, _S), 'hist:enum-ok': (0.08, _S), 'hist:pfile-failed': (0.08, _S), 'hist:pfile-ok': (0.05, _S),
           'hist:pfile-failed-with-faulty-include': (0.02, _S)}
 TECHNIQUE = ('model-free differential over generated operation histories: state after '
@@ -696,13 +697,12 @@ def snapshot(desc, tag, probing):
           with gin.config_scope(scope):
             return WRAPPERS[name]()
         rec('call ' + scoped(scope, name), call)
-    strings()
     for name in LOOKUPS:
       rec('%' + name, lambda: macro_lookup(name))
     rec('reset cons.x', lambda: gin.parse_config('c20m.cons.x = 0'))   # leave no dangling macro
     # Every pool path is parsed as a (correct) file including a (correct) file: whatever was done
     # with these paths before the clear, a fresh process just parses them.
-    for n, mname in enumerate(MAINS):
+    for n, mname in enumerate(MAINS if tag == 'A' else []):   # right after the clear only
       def fileprobe():
         incpath = write_file(INCS[n % len(INCS)], ['c20m.cons.x = 1'])
         main = write_file(mname, ["include '%s'" % incpath, 'c20m.cons.x = 0'])
